@@ -70,6 +70,8 @@ func TestDrive(t *testing.T) {
 				d.planFaults(a, b)
 			case "cancel":
 				d.planCancel(a, b)
+			case "crafted":
+				d.planCrafted(a, b)
 			case "faultsR":
 				d.planFaultsR(a, b)
 			case "random":
@@ -247,6 +249,40 @@ func (d *driver) planFaultsR(count, k int) {
 					}
 					d.run(&sc)
 				}
+			}
+		}
+	}
+}
+
+// planCrafted: the crafted shapes. Fault-free: DFS over schedules (capped);
+// every single fault and callback error: k seeded schedules; every
+// destination kind; extended copy from the listed start nodes.
+func (d *driver) planCrafted(cap, k int) {
+	d.plan = "crafted"
+	for _, cs := range craftedShapes() {
+		n := len(cs.Nodes) - 1
+		for _, dk := range []string{"memory", "file", "oci"} {
+			for c := 2; c <= 3; c++ {
+				d.dfs(Scenario{Nodes: cs.Nodes, API: "copygraph", Root: n, Dst0: []int{}, C: c, DstKind: dk}, cap)
+			}
+		}
+		for node := 1; node <= n; node++ {
+			for _, f := range faultOps {
+				f.Node = node
+				for j := 0; j < k; j++ {
+					sc := Scenario{Nodes: cs.Nodes, API: "copygraph", Root: n, Dst0: []int{}, C: 2 + d.rng.Intn(2),
+						Faults: []Fault{f}, Seed: d.rng.Int63()}
+					if j%2 == 1 && len(cs.Ext) > 0 {
+						sc.API = "extcopygraph"
+						sc.Root = cs.Ext[d.rng.Intn(len(cs.Ext))]
+					}
+					d.run(&sc)
+				}
+			}
+		}
+		for _, start := range cs.Ext {
+			for c := 1; c <= 3; c++ {
+				d.dfs(Scenario{Nodes: cs.Nodes, API: "extcopygraph", Root: start, Dst0: []int{}, C: c}, cap/2+1)
 			}
 		}
 	}
